@@ -36,14 +36,14 @@ impl io::Read for Src {
         }
         let avail = s.data.len() - s.pos;
         let maxk = avail.min(buf.len());
-        let mut costs: Vec<u8> = vec![0; maxk.max(1)];
+        let (sizes, mut costs) = size_menu(maxk, s.data.len() > 32);
         let deliver = costs.len();
         if s.interrupts < s.max_interrupts {
             costs.push(1);
         }
         let c = s.ch.borrow_mut().choose("read", &costs);
         if c < deliver {
-            let k = if maxk == 0 { 0 } else { maxk - c };
+            let k = sizes[c];
             let p = s.pos;
             buf[..k].copy_from_slice(&s.data[p..p + k]);
             s.pos += k;
@@ -59,11 +59,13 @@ pub struct RScenario {
     pub frames: Vec<Frame>,
     pub avail: usize,
     pub max_len: Option<u32>,
+    /// construct the reader with `with_buffer` and a recycled buffer (stale content, spare capacity)
+    pub dirty: bool,
 }
 
 impl RScenario {
     fn json(&self) -> serde_json::Value {
-        json!({"side": "reader", "frames": describe(&self.frames), "stream_hex": refmodel::hex(&wire(&self.frames)), "bytes_before_end_of_stream": self.avail, "max_len": self.max_len})
+        json!({"side": "reader", "frames": describe(&self.frames), "stream_hex": refmodel::hex(&wire(&self.frames)), "bytes_before_end_of_stream": self.avail, "max_len": self.max_len, "with_buffer": self.dirty})
     }
 }
 
@@ -71,7 +73,7 @@ pub fn run_reader(sc: &RScenario, max_interrupts: u32, ch: SharedChooser, out: &
     let mut data = wire(&sc.frames);
     data.truncate(sc.avail);
     let st = Rc::new(RefCell::new(SrcState { data, pos: 0, interrupts: 0, max_interrupts, reads: 0, ch }));
-    let mut reader = Reader::new(Src(st.clone()));
+    let mut reader = if sc.dirty { Reader::with_buffer(Src(st.clone()), dirty_buffer()) } else { Reader::new(Src(st.clone())) };
     let max_len = match sc.max_len {
         Some(m) => {
             reader.set_max_len(m);
@@ -106,6 +108,7 @@ pub fn run_reader(sc: &RScenario, max_interrupts: u32, ch: SharedChooser, out: &
 }
 
 struct SinkState {
+    coarse: bool,
     received: Vec<u8>,
     interrupts: u32,
     max_interrupts: u32,
@@ -123,14 +126,14 @@ impl io::Write for Sink {
             panic!("HORIZON: the sink was written more than 2000 times in one execution (livelock)");
         }
         let n = buf.len();
-        let mut costs: Vec<u8> = vec![0; n.max(1)];
+        let (sizes, mut costs) = size_menu(n, s.coarse);
         let accept = costs.len();
         if s.interrupts < s.max_interrupts {
             costs.push(1);
         }
         let c = s.ch.borrow_mut().choose("write", &costs);
         if c < accept {
-            let k = if n == 0 { 0 } else { n - c };
+            let k = sizes[c];
             s.received.extend_from_slice(&buf[..k]);
             return Ok(k);
         }
@@ -146,28 +149,25 @@ impl io::Write for Sink {
 pub struct WScenario {
     pub values: Vec<Val>,
     pub max_len: Option<u32>,
+    pub dirty: bool,
 }
 
 impl WScenario {
     fn json(&self) -> serde_json::Value {
-        json!({"side": "writer", "values": self.values.iter().map(|v| format!("{:?}", v)).collect::<Vec<_>>(), "max_len": self.max_len})
+        json!({"side": "writer", "values": self.values.iter().map(|v| format!("{:?}", v)).collect::<Vec<_>>(), "max_len": self.max_len, "with_buffer": self.dirty})
     }
 }
 
 fn val_payload(v: &Val) -> Option<Vec<u8>> {
     match v {
-        Val::Arr(a) => {
-            let mut p = vec![0x80 | a.len() as u8];
-            p.extend_from_slice(a);
-            Some(p)
-        }
+        Val::Arr(a) => Some(array_payload(a)),
         _ => None,
     }
 }
 
 pub fn run_writer(sc: &WScenario, max_interrupts: u32, ch: SharedChooser, out: &mut Option<usize>) -> Result<(), String> {
-    let st = Rc::new(RefCell::new(SinkState { received: Vec::new(), interrupts: 0, max_interrupts, writes: 0, ch }));
-    let mut writer = Writer::new(Sink(st.clone()));
+    let st = Rc::new(RefCell::new(SinkState { coarse: sc.values.iter().any(|v| matches!(v, Val::Arr(a) if a.len() > 24)), received: Vec::new(), interrupts: 0, max_interrupts, writes: 0, ch }));
+    let mut writer = if sc.dirty { Writer::with_buffer(Sink(st.clone()), dirty_buffer()) } else { Writer::new(Sink(st.clone())) };
     let max_len = match sc.max_len {
         Some(m) => {
             writer.set_max_len(m);
@@ -236,8 +236,30 @@ pub fn reader_scenarios(tier: Tier) -> (Vec<RScenario>, u32, String) {
                 if avail < total && !(ml.is_none() || ml == Some(largest)) {
                     continue;
                 }
-                out.push(RScenario { frames: fs.clone(), avail, max_len: ml });
+                out.push(RScenario { frames: fs.clone(), avail, max_len: ml, dirty: false });
+                if ml.is_none() && avail == total {
+                    out.push(RScenario { frames: fs.clone(), avail, max_len: ml, dirty: true });
+                }
             }
+        }
+    }
+    // large frames: the payload length crosses a byte boundary of the length prefix
+    for big in large_frames() {
+        let l = big.payload.len();
+        let huge = l > 1000;
+        if huge && tier == Tier::Quick && l != 65536 {
+            continue;
+        }
+        let seqs = if huge { vec![vec![big.clone()]] } else { vec![vec![big.clone()], vec![kinds[0].clone(), big.clone(), kinds[2].clone()]] };
+        for fs in seqs {
+            let total = wire(&fs).len();
+            let lead = if fs.len() == 1 { 0 } else { 4 + kinds[0].payload.len() };
+            let cuts = if huge { vec![total, total - 1, lead + 4 + l / 2] } else { vec![total, total - 1, lead + 4 + l, lead + 4 + l - 1, lead + 4 + l / 2, lead + 4, lead + 3] };
+            for avail in cuts {
+                out.push(RScenario { frames: fs.clone(), avail, max_len: None, dirty: false });
+            }
+            out.push(RScenario { frames: fs.clone(), avail: total, max_len: Some(l as u32), dirty: true });
+            out.push(RScenario { frames: fs.clone(), avail: total, max_len: Some(l as u32 - 1), dirty: false });
         }
     }
     for h in hostile_frames() {
@@ -245,13 +267,13 @@ pub fn reader_scenarios(tier: Tier) -> (Vec<RScenario>, u32, String) {
             let mut fs = lead.clone();
             fs.push(h.clone());
             let total = wire(&fs).len();
-            out.push(RScenario { frames: fs.clone(), avail: total, max_len: None });
-            out.push(RScenario { frames: fs.clone(), avail: total, max_len: Some(8) });
+            out.push(RScenario { frames: fs.clone(), avail: total, max_len: None, dirty: false });
+            out.push(RScenario { frames: fs.clone(), avail: total, max_len: Some(8), dirty: true });
         }
     }
     out.sort_by_key(|s| std::cmp::Reverse(s.avail));
     let bound = format!(
-        "streams of 0..={} frames over {} payload kinds, <= {} bytes, plus 3 hostile declared lengths; every truncation point; max_len in {{default, L-1, L, L+1}}; all compositions of every read into delivered sizes; <= {} Interrupted errors anywhere",
+        "streams of 0..={} frames over {} payload kinds, <= {} bytes, plus 3 hostile declared lengths, plus frames with payloads of 255/256/257/65535/65536/65537 bytes (alone and between two small frames, cut at 7 points; reads of more than 32 bytes are delivered whole or, as one deviation each, as 1 / half / all-but-one bytes); Reader::new and Reader::with_buffer(recycled buffer); every truncation point; max_len in {{default, L-1, L, L+1}}; all compositions of every read into delivered sizes; <= {} Interrupted errors anywhere",
         max_frames, kinds.len(), max_bytes, interrupts
     );
     (out, interrupts, bound)
@@ -280,11 +302,26 @@ pub fn writer_scenarios(tier: Tier) -> (Vec<WScenario>, u32, String) {
     let mut out = Vec::new();
     for s in all {
         for ml in [None, Some(1u32), Some(2), Some(3)] {
-            out.push(WScenario { values: s.clone(), max_len: ml });
+            out.push(WScenario { values: s.clone(), max_len: ml, dirty: false });
+        }
+        out.push(WScenario { values: s.clone(), max_len: None, dirty: true });
+    }
+    for big in large_frames() {
+        let v = Val::Arr(big.value.clone().unwrap());
+        let l = big.payload.len() as u32;
+        let huge = l > 1000;
+        if huge && tier == Tier::Quick && l != 65536 {
+            continue;
+        }
+        let seqs = if huge { vec![vec![v.clone()], vec![v.clone(), Val::FailEnc, Val::Arr(vec![5])]] } else { vec![vec![v.clone()], vec![Val::Arr(vec![5]), v.clone(), Val::Arr(vec![1, 2])], vec![v.clone(), Val::FailEnc, v.clone()]] };
+        for seq in seqs {
+            out.push(WScenario { values: seq.clone(), max_len: None, dirty: false });
+            out.push(WScenario { values: seq.clone(), max_len: Some(l), dirty: true });
+            out.push(WScenario { values: seq.clone(), max_len: Some(l - 1), dirty: false });
         }
     }
     let bound = format!(
-        "0..={} values over {} kinds, max_len in {{default, 1, 2, 3}}; all splits of every write into accepted sizes; <= {} Interrupted errors anywhere",
+        "0..={} values over {} kinds, max_len in {{default, 1, 2, 3}}, plus values with payloads of 255..65537 bytes (max_len L-1, L, default; writes of more than 32 bytes accepted whole or, as one deviation each, 1 / half / all-but-one bytes); Writer::new and Writer::with_buffer(recycled buffer); all splits of every write into accepted sizes; <= {} Interrupted errors anywhere",
         max_vals, vals.len(), interrupts
     );
     (out, interrupts, bound)
@@ -385,9 +422,9 @@ pub fn replay_case(case: &serde_json::Value) -> Result<(), String> {
     let ints = case["interrupts"].as_u64().unwrap() as u32;
     if sc["side"] == "reader" {
         let names: Vec<String> = sc["frames"].as_array().unwrap().iter().map(|x| x.as_str().unwrap().to_string()).collect();
-        let all: Vec<Frame> = frame_kinds().into_iter().chain(hostile_frames()).collect();
+        let all: Vec<Frame> = frame_kinds().into_iter().chain(hostile_frames()).chain(large_frames()).collect();
         let frames: Vec<Frame> = names.iter().map(|n| all.iter().find(|f| f.name == n).unwrap().clone()).collect();
-        let scen = RScenario { frames, avail: sc["bytes_before_end_of_stream"].as_u64().unwrap() as usize, max_len: sc["max_len"].as_u64().map(|x| x as u32) };
+        let scen = RScenario { frames, avail: sc["bytes_before_end_of_stream"].as_u64().unwrap() as usize, max_len: sc["max_len"].as_u64().map(|x| x as u32), dirty: sc["with_buffer"].as_bool().unwrap_or(false) };
         let mut o = None;
         let (labels, res) = replay(&choices, |ch| run_reader(&scen, ints, ch, &mut o));
         for l in labels {
